@@ -134,6 +134,18 @@ func RunBatch(cfg BatchConfig, progs []Program) ([]Result, error) {
 			os.WriteFile(filepath.Join(pd, "extra.go"), []byte(x), 0o644)
 		}
 	}
+	// nothing was generated: every program already has its gen-fail verdict
+	generated := 0
+	for i := range progs {
+		if res[i].GenFail == "" || res[i].NonDet {
+			if fileExists(filepath.Join(dir, progs[i].Name, "parquet.go")) {
+				generated++
+			}
+		}
+	}
+	if generated == 0 {
+		return res, nil
+	}
 	// compile verdict per package
 	p := cfg.BuildP
 	if p <= 0 {
